@@ -84,6 +84,11 @@ def check(k, seed):
     if k % 12 == 5:
         df, desc, msa_, buf_ = deck_exactly_at_a_non_integer_limit(k, seed)
         prms = {'MSA': msa_, 'MSA_HIT_BUFFER': buf_, 'MAX_HITS_OKTA0': 3}
+    elif k % 12 == 9:
+        # measurements always reported with three slots, the unused higher ones left at NaN (accepted without a warning): a NaN
+        # height is not "above the limit"
+        df, desc = scene(20 + 21 * (k // 12), seed)          # layout nan_higher_slots (decks at 1800 and 12000 ft)
+        prms = {'MSA': rng.choice([5000, 1000, 11000]), 'MSA_HIT_BUFFER': rng.choice([0, 1500]), 'MAX_HITS_OKTA0': rng.choice([3, 0, 2])}
     elif k % 6 == 2:
         df, desc = synchronised_high_first_low_second(k, seed)
         prms = {'MSA': 5000, 'MSA_HIT_BUFFER': 500}
